@@ -85,6 +85,17 @@ def gen_case(rng, params, index):
         d1 = rng.choice(dirs)
         comps["Selfie"] = {"dir": d1, "super": "Selfie", "imports": list(dimports[d1]), "cyclic": True}
         cyc.append("Selfie")
+    # components whose chain of root types leads *into* a cycle without being on it (a rho shape)
+    tails = []
+    if cyc and rng.chance(0.7):
+        for k in range(rng.randint(1, 2)):
+            target = rng.choice(cyc + tails)
+            d = comps[target]["dir"] if rng.chance(0.6) else rng.choice(dirs)
+            if comps[target]["dir"] != d and comps[target]["dir"] not in dimports[d]:
+                dimports[d].append(comps[target]["dir"])
+            name = "Tail%d" % k
+            comps[name] = {"dir": d, "super": target, "imports": list(dimports[d]), "cyclic": True}
+            tails.append(name)
     # refresh import lists (cycle creation may have added edges)
     for n, c in comps.items():
         c["imports"] = list(dimports[c["dir"]])
@@ -168,11 +179,14 @@ def gen_case(rng, params, index):
         expect[rel] = {"custom": sorted(set(used)), "props": props}
     # negative documents: use a cyclic component; checked one per invocation
     negatives = []
-    for n in cyc[:2]:
+    for n in tails + cyc[:2]:
         d = comps[n]["dir"]
         rel = "%s/Neg%s.qml" % (d, n)
         L = ["import qmluic.QtWidgets"] + ['import "%s"' % relpath_spelling(rng, d, e) for e in dimports[d]]
-        L += ["QWidget {", "    QVBoxLayout { %s { } }" % n, "}"]
+        if n.startswith("Tail") and rng.chance(0.3):
+            L += ["%s {" % n, "}"]            # the source's own root type is steps away from the cycle
+        else:
+            L += ["QWidget {", "    QVBoxLayout { %s { } }" % n, "}"]
         files["proj/" + rel] = "\n".join(L) + "\n"
         negatives.append(rel)
     # a positive document living next to cyclic components exercises discovery over the cycle
@@ -260,7 +274,8 @@ def run_case(case, env):
         if not argv_srcs:
             continue
         step = {"op": "GEN", "sources": argv_srcs, "O": None, "no_dyn": False, "no_lower": case["no_lower"],
-                "hash_seed": sc["hash_seed"], "dirent_seed": sc["dirent_seed"], "env_pad": 0}
+                "hash_seed": sc["hash_seed"], "dirent_seed": sc["dirent_seed"], "env_pad": 0,
+                "timeout_ms": 6000}   # a normal invocation takes ~30 ms; CPU-bound loops make no system call, so the time bound decides
         old_cwd = sb.cwd
         sb.cwd = posixpath.normpath(posixpath.join(proj, cwd_rel))
         try:
